@@ -411,18 +411,23 @@ func init() {
 				N      int             `json:"n"`
 				Prefix []int           `json:"prefix"`
 				MaxOks int             `json:"maxoks"`
+				Vsize  int             `json:"vsize"` // free positions range over vocab[:vsize] (0 = all)
 			}
 			if err := json.Unmarshal(in.Bytes(), &c); err != nil {
 				return err
 			}
 			vocab := tokenListOf(c.Vocab).tokens
 			free := c.N - len(c.Prefix)
+			base := c.Vsize
+			if base <= 0 || base > len(vocab) {
+				base = len(vocab)
+			}
 			if free < 0 || len(vocab) == 0 {
 				return fmt.Errorf("bad enum request")
 			}
 			total := 1
 			for i := 0; i < free; i++ {
-				total *= len(vocab)
+				total *= base
 			}
 			seqAt := func(idx int) TokenList {
 				tl := TokenList{}
@@ -431,8 +436,8 @@ func init() {
 				}
 				digits := make([]int, free)
 				for i := free - 1; i >= 0; i-- {
-					digits[i] = idx % len(vocab)
-					idx /= len(vocab)
+					digits[i] = idx % base
+					idx /= base
 				}
 				for _, d := range digits {
 					tl.Add(vocab[d])
